@@ -4,6 +4,8 @@ import fcntl, glob, hashlib, json, os, shutil, subprocess, sys, time
 VERIF = os.path.dirname(os.path.dirname(os.path.abspath(__file__)))
 REPO = os.environ.get("MQ_REPO", "/repo")
 CACHE = os.path.join(VERIF, ".cache")
+# parallel self-test workers (./mutest --jobs N) each use their own build directory and lock
+WORKER = ("-w" + os.environ["MQ_WORKER"]) if os.environ.get("MQ_WORKER") else ""
 DRIVER = os.path.join(VERIF, "mqfacts", "target", "release", "mqfacts")
 
 WORKSPACE_CRATES = [
@@ -77,7 +79,7 @@ def run_driver(profile, out_dir, repo=REPO, target=None, cwd=None, cargo_args=No
         exp = expect
     if extra_flags is not None:
         flags = extra_flags
-    target = target or os.path.join(CACHE, "target-" + profile)
+    target = target or os.path.join(CACHE, "target-" + profile + WORKER)
     os.makedirs(out_dir, exist_ok=True)
     os.makedirs(target, exist_ok=True)
     _clear_member_fingerprints(target)
@@ -112,7 +114,7 @@ def facts_dir(profile, key=None):
     if os.path.exists(done):
         return d
     os.makedirs(CACHE, exist_ok=True)
-    with open(os.path.join(CACHE, "lock-" + profile), "w") as lk:
+    with open(os.path.join(CACHE, "lock-" + profile + WORKER), "w") as lk:
         fcntl.flock(lk, fcntl.LOCK_EX)
         if os.path.exists(done):
             return d
